@@ -134,7 +134,10 @@ def step_checked(rec, w, shard, hist_, ms, op):
         rec.case((wk, hist_, op), nontrivial=post is not None and (closure > 1 or (flushy and bool(ms.deparented)) or op[0] == "merge"))
         case = dict(shard=shard, history=[list(o) for o in hist_], op=list(op))
         for kind, sig, detail in problems:
-            if kind.startswith("known:"):
+            if kind.startswith("note:"):
+            rec.count(kind[5:])
+            continue
+        if kind.startswith("known:"):
                 tag = kind[6:]
                 if tag in ("f1", "f2", "f3", "f6"):
                     rec.violation(canon_sig(tag), "%s af=%s: %s | after %s" % (wk, shard["autoflush"], detail, ow.fmt_hist(hist_ + (op,))), case)
